@@ -4,7 +4,7 @@
 From Coq Require Import List ZArith QArith Lia Bool ZifyBool Arith.
 From PV Require Import lib.Sx lib.Str lib.Result lib.Dec.
 From PV Require Import model.Base model.TimeRead model.TimeWrite model.TimeTree model.XmlRead model.Chain model.DfxpWriteDoc.
-From PV Require Import spec.SpecTime spec.SpecTimeTree spec.SpecXmlDoc spec.SpecChain.
+From PV Require Import spec.SpecTime spec.SpecTimeTree spec.SpecXmlDocT spec.SpecChain.
 From PV Require Import proofs.TimeReadFacts proofs.TimeTreeFacts proofs.ChainFacts proofs.XmlReadFacts.
 Import ListNotations.
 Open Scope Z_scope.
